@@ -1032,8 +1032,11 @@ void f_switch () {
           l = current_prog->program + offset;
           COPY_INT (&d, end_tab - 4);
           /* d is minimum value - see if in range or not */
-          if (s >= d && l + (s = (s - d) * sizeof (short)) < (end_tab - 4))
+          /* compare the index with the number of table entries first: (s - d) * 2 wraps for huge values of s
+           * and made l + s point anywhere */
+          if (s >= d && ((uintptr_t) s - (uintptr_t) (intptr_t) d) < (uintptr_t) ((end_tab - 4) - l) / sizeof (short))
             {
+              s = (s - d) * sizeof (short);
               COPY_SHORT (&offset, &l[s]);
               if (offset)
                 {
